@@ -2366,25 +2366,25 @@ func (m *MetaCode) Decode(d *Decoder) error {
 		return err
 	}
 
-	if length == 0 {
-		return nil
-	}
-
 	// Decode the Metadata
-	metadata := make([]byte, length)
-	if _, err = d.buf.Read(metadata); err != nil {
-		return err
-	}
+	if length > 0 {
+		metadata := make([]byte, length)
+		if _, err = d.buf.Read(metadata); err != nil {
+			return err
+		}
 
-	m.Metadata = ByteSequence(metadata)
+		m.Metadata = ByteSequence(metadata)
+	}
 
 	// Decode the Code (remaining bytes)
-	code := make([]byte, d.buf.Len())
-	if _, err = d.buf.Read(code); err != nil {
-		return err
-	}
+	if d.buf.Len() > 0 {
+		code := make([]byte, d.buf.Len())
+		if _, err = d.buf.Read(code); err != nil {
+			return err
+		}
 
-	m.Code = ByteSequence(code)
+		m.Code = ByteSequence(code)
+	}
 
 	return nil
 }
